@@ -140,7 +140,7 @@ func (p c18) scenario(r *core.Result, s c18scn, seed uint64) {
 	rng := core.NewRng(seed)
 	core.CanaryReset()
 	fail := func(k, format string, a ...interface{}) {
-		if core.CanaryWorstMS() > 1500 {
+		if core.CanaryWorstMS() > 600 {
 			r.Verdict = core.Inconclusive
 			r.Note = "timing clause under starvation: " + k
 			return
